@@ -158,6 +158,66 @@ def main(repo, outdir):
         if re.sub(r"\s+", " ", want) not in re.sub(r"\s+", " ", t):
             raise Untranslatable("cpp.BasicBlock.compile changed:\n" + t)
         L.append("Definition cpp_cse_prefix_first : bool := true.")
+        # ---------------- call signatures of the generated filter (C12)
+        def yields(fn):
+            """ordered list of (condition, C++ type) of the Arg(...)s a generator function yields"""
+            f = get_source_func(fr, fn)
+            out = []
+
+            def walk(stmts, cond):
+                for st in stmts:
+                    if isinstance(st, ast.Expr) and isinstance(st.value, ast.Yield):
+                        v = st.value.value
+                        if not (isinstance(v, ast.Call) and ast.unparse(v.func) == "Arg" and len(v.args) == 2):
+                            raise Untranslatable(f"{fn}: yield of a non-Arg")
+                        out.append((cond, ast.unparse(v.args[0]), ast.unparse(v.args[1])))
+                    elif isinstance(st, ast.If):
+                        c = ast.unparse(st.test)
+                        walk(st.body, cond + [c])
+                        walk(st.orelse, cond + ["not " + c])
+                    elif isinstance(st, ast.Expr) and isinstance(st.value, ast.Constant):
+                        continue
+                    else:
+                        raise Untranslatable(f"{fn}: statement {ast.unparse(st)[:60]}")
+            walk(f.body, [])
+            return out
+
+        KIND = {"'double'": "Adt", "'const StateAndVariance&'": "Astate", "'const State&'": "Astate", "'const Calibration&'": "Acal",
+                "'const Control&'": "Actl", "'const ExtendedKalmanFilter&'": "Aimpl", "'const ReadingT&'": "Areading"}
+
+        def sig(fn, name, params):
+            items = []
+            for cond, ty, nm in yields(fn):
+                cond = [c for c in cond if c not in ("generator.enable_EKF", "reading_type is None")]
+                if any(c.startswith("not ") for c in cond):
+                    continue  # the non-EKF / concrete-reading alternatives
+                if ty.startswith("f'const {reading_type.typename}&'"):
+                    continue
+                if ty not in KIND:
+                    raise Untranslatable(f"{fn}: argument type {ty}")
+                guard = {"generator.enable_calibration()": "cal", "generator.enable_control()": "ctl"}
+                g = [guard[c] for c in cond if c in guard]
+                if len(g) != len(cond):
+                    raise Untranslatable(f"{fn}: condition {cond}")
+                items.append(f"(if {' && '.join(g)} then [{KIND[ty]}] else [])" if g else f"[{KIND[ty]}]")
+            return f"Definition {name} ({params} : bool) : list akind := " + " ++ ".join(items) + "."
+        L.append("Inductive akind := Adt | Astate | Acal | Actl | Areading | Aimpl.")
+        L.append(sig("standard_process_args", "gen_process_sig", "ctl cal"))
+        L.append(sig("standard_reading_args", "gen_reading_sig", "ctl cal"))
+        L.append(sig("_StampedReadingBase_args", "gen_stamped_sig", "ctl cal"))
+        L.append(sig("_Reading_sensor_model_args", "gen_reading_override_sig", "ctl cal"))
+        t = src(fr, "_Reading_sensor_model_body")
+        if "if generator.enable_calibration():\n        yield Return('impl.sensor_model(state, calibration, *this)')\n    else:\n        yield Return('impl.sensor_model(state, *this)')" not in t:
+            raise Untranslatable("ast_fragments._Reading_sensor_model_body changed")
+        t = src(fr, "_EKF_Tag_body")
+        for a, b in (("CalibrationT", "Calibration"), ("ControlT", "Control")):
+            en = "generator.enable_calibration()" if b == "Calibration" else "generator.enable_control()"
+            if f"if {en}:\n        yield UsingDeclaration('{a}', '{b}')\n    else:\n        yield UsingDeclaration('{a}', 'std::false_type')" not in t:
+                raise Untranslatable(f"ast_fragments._EKF_Tag_body: {a}")
+        if "yield MemberDeclaration('static constexpr double', 'max_dt_sec', 'cpp::Config::max_dt_sec')" not in t or \
+                "UsingDeclaration('StateAndVarianceT', 'StateAndVariance')" not in t or "UsingDeclaration('StampedReadingBaseT', 'StampedReadingBase')" not in t:
+            raise Untranslatable("ast_fragments._EKF_Tag_body changed")
+        L.append("Definition gen_tag_false_type_when_absent : bool := true.")
         txt = ("(* GENERATED on every run from py/formak/ast_fragments.py and cpp.py by tools/translate/gen_cppgen.py. *)\n"
                "From Coq Require Import List Arith.\nFrom FV Require Import Base.Expr Model.Layout.\nImport ListNotations.\n\n" + "\n".join(L) + "\n")
     except Exception as e:
